@@ -44,9 +44,15 @@ func runC18(w *World, r *Report, tier string) {
 			_, isGo := c.(*ssa.Go)
 			var sameCh bool
 			for _, rc := range w.callsIn(f, "xmpp.Client.recv") {
-				if chanOrigin(rc.Common().Args[1]) == chanOrigin(args[2]) {
+				// (a receive loop that is not handed the channel when it is started finds it somewhere when it ends: then
+				// nothing ties the channel it closes to the keepalive started here)
+				if ra := rc.Common().Args; len(ra) >= 2 && len(args) >= 3 && chanOrigin(ra[1]) == chanOrigin(args[2]) {
 					sameCh = true
 				}
+			}
+			if len(args) < 3 {
+				r.Fail("R1", cons, w.ipos(c), "keepalive is not started with (transport, interval, quit channel)")
+				continue
 			}
 			r.Check(okA && isGo && sameCh, "R1", cons, w.ipos(c), "keepalive is not started as a goroutine with (client transport, Config.KeepaliveInterval, the quit channel handed to recv)", "go keepalive(c.transport, c.config.KeepaliveInterval, q) with q also given to recv")
 		}
